@@ -488,6 +488,15 @@ OSD_descr_get(PyObject* self, PyObject* inst, PyObject* cls)
         return getObjectSpecification(module, cls);
     }
 
+    if (cls == NULL) {
+        /* ``descriptor.__get__(inst)``: the Python implementation
+           requires the owner. */
+        PyErr_SetString(PyExc_TypeError,
+                        "__get__() missing 1 required positional argument: "
+                        "'cls'");
+        return NULL;
+    }
+
     provides = PyObject_GetAttr(inst, str__provides__);
     /* Return __provides__ if we got it, or return NULL and propagate
      * non-AttributeError. */
